@@ -18,6 +18,7 @@ pub struct ReqSpec {
     pub api: &'static str, // flow | call_without | call_with
     pub hops: Vec<(u16, String)>,
     pub policy_same_host: bool,
+    pub despite_first: bool,
 }
 
 pub fn version_of(v: &str) -> Version {
@@ -134,10 +135,13 @@ pub fn build_sut(s: &ReqSpec) -> Option<Built> {
             if !s.hops.is_empty() {
                 orig.retain(|(n, _)| !SUPPRESSED.contains(&n.as_str()));
             }
+            if s.despite && s.despite_first {
+                f.send_body_despite_method();
+            }
             for (n, v) in &s.added {
                 f.header(n.as_str(), HeaderValue::from_bytes(v).expect("harness: header value")).ok()?;
             }
-            if s.despite {
+            if s.despite && !s.despite_first {
                 f.send_body_despite_method();
             }
             let rq = json!({"method": method, "version": version, "api": "flow", "despite": s.despite, "target": target,
@@ -427,7 +431,18 @@ pub fn c02(o: &Opts, t: &mut Tracer) -> Value {
         let hops: Vec<(u16, String)> = (0..depth).map(|d| ([302u16, 301, 307][d % 3], ["/r1", "http://other.test/r2?z=1", "../r3"][(i + d) % 3].to_string())).collect();
         // 307 keeps the method and is not followed for body methods: use 302 for those
         let hops: Vec<(u16, String)> = hops.into_iter().map(|(s, l)| if body_method || method == "DELETE" { (302, l) } else { (s, l) }).collect();
-        let s = ReqSpec { method: method.into(), version, uri, orig, added, despite, api, hops, policy_same_host: i % 2 == 0 };
+        let policy_same_host = i % 2 == 0;
+        if depth > 0 && i % 2 == 1 {
+            // inherited headers that every redirect suppresses, some of them repeated
+            orig.push(("cookie".into(), b"a=1".to_vec()));
+            orig.push(("x-between".into(), b"1".to_vec()));
+            orig.push(("cookie".into(), b"b=2".to_vec()));
+            if !policy_same_host {
+                orig.push(("authorization".into(), b"Basic one".to_vec()));
+                orig.push(("authorization".into(), b"Basic two".to_vec()));
+            }
+        }
+        let s = ReqSpec { method: method.into(), version, uri, orig, added, despite, api, hops, policy_same_host, despite_first: i % 4 < 2 };
         t.sig(format!("c02/{}/{}/{}/{}/{}/{}", method, version, api, depth, norig.min(13), nadded.min(7)));
         exercise(t, &s, &mut rng, if o.quick() { 5 } else { 8 }, true, "c02");
     }
@@ -437,9 +452,10 @@ pub fn c02(o: &Opts, t: &mut Tracer) -> Value {
 pub fn c16(o: &Opts, t: &mut Tracer) -> Value {
     let mut rng = rng_for(o.seed, 0xC16);
     let nflows = if o.quick() { 300 } else { 8000 };
-    let special: [(&str, &[u8]); 8] = [
+    let special: [(&str, &[u8]); 10] = [
         ("cookie", b"jar=1"), ("authorization", b"Bearer target-token"), ("content-length", b"0"), ("host", b"override.test"),
         ("connection", b"close"), ("Cookie", b"second=2"), ("x-1", b"one"), ("accept", b"*/*"),
+        ("cookie", b"name=caf\xe9"), ("authorization", b"Basic \xff\xfe\x80"),
     ];
     for i in 0..nflows {
         let depth = i % 4;
@@ -473,7 +489,13 @@ pub fn c16(o: &Opts, t: &mut Tracer) -> Value {
             added.push((n.to_string(), v.to_vec()));
         }
         let hops: Vec<(u16, String)> = (0..depth).map(|d| (302u16, ["/next", "http://b.test/x", "https://h.test/s", "../up?q=1"][(i + d) % 4].to_string())).collect();
-        let s = ReqSpec { method: method.into(), version: "1.1", uri: "http://h.test/start/page".into(), orig, added, despite: false, api: "flow", hops, policy_same_host: i % 2 == 1 };
+        // send-body-despite-method on the (bodiless) request that is finally sent, before or after adding the headers
+        let final_bodiless = depth > 0 || !body_method;
+        let despite = final_bodiless && i % 3 == 0 && method != "HEAD";
+        if despite {
+            t.class("c16:despite");
+        }
+        let s = ReqSpec { method: method.into(), version: "1.1", uri: "http://h.test/start/page".into(), orig, added, despite, api: "flow", hops, policy_same_host: i % 2 == 1, despite_first: i % 2 == 0 };
         t.sig(format!("c16/{}/{}/{}/{}", method, depth, nadd.min(10), i % 2));
         if depth > 0 && nadd > 0 {
             t.class("c16:added-on-redirected");
@@ -545,7 +567,7 @@ pub fn c17(o: &Opts, t: &mut Tracer) -> Value {
                                     _ => {}
                                 }
                                 orig.extend(gen_headers(&mut rng, (n % 3) as usize));
-                                let s = ReqSpec { method: m.to_string(), version: v, uri: "http://u.test/p?q=1".into(), orig, added, despite, api, hops: vec![], policy_same_host: false };
+                                let s = ReqSpec { method: m.to_string(), version: v, uri: "http://u.test/p?q=1".into(), orig, added, despite, api, hops: vec![], policy_same_host: false, despite_first: n % 2 == 0 };
                                 t.sig(format!("c17/{}/{}/{}/{}/{}/{}/{}", v, m, h, c, te, despite, api));
                                 exercise(t, &s, &mut rng, 1, true, "c17");
                             }
